@@ -26,6 +26,7 @@ const vmLimitEquiv = 50_000
 
 // lastRunSteps / lastOverBudget: VM instructions of the most recent runSrc call
 var lastRunSteps int64
+var lastRunAborted bool // the most recent run was ended by the watchdog, not by the step limit
 var maxStepRatioX100 int64
 
 func runSrc(src, text string) (recs []MatchRec, sig, what string, discard bool) {
@@ -38,6 +39,7 @@ func runSrc(src, text string) (recs []MatchRec, sig, what string, discard bool) 
 	}
 	res := RunSafe(v, text, vmLimitEquiv)
 	lastRunSteps = res.Steps
+	lastRunAborted = res.Aborted
 	if res.OverBudget {
 		return nil, "", "", true
 	}
@@ -65,7 +67,7 @@ func checkEquivCase(c EquivCase) (sig, what string, discard bool, nmatches int) 
 			// on the unchanged tree: 20x, on programs of a few instructions); a rendering
 			// that needs more than 100 times the instructions of the written-out form (and
 			// more than the whole budget) is not the same search any more
-			if refSteps*100+1000 < vmLimitEquiv {
+			if refSteps*100+1000 < vmLimitEquiv && !lastRunAborted {
 				return "rendering-diverges", fmt.Sprintf("on %q: [%s] %s finishes in %d VM instructions, but [%s] %s exceeds %d", c.Text, c.Labels[0], c.Sources[0], refSteps, c.Labels[i], c.Sources[i], vmLimitEquiv), false, 0
 			}
 			return "", "", true, 0
